@@ -342,10 +342,37 @@ pub fn get_unix_timestamp_ms() -> u64 {
 /// This timestamp is ensured to be accurate taking into account the
 /// resolution lost when converting the timestamp.
 pub fn get_datacake_timestamp() -> Duration {
+    #[cfg(datacake_verif)]
+    if let Some(injected) = verif_clock::get() {
+        return injected;
+    }
+
     let duration = SystemTime::now().duration_since(UNIX_EPOCH).unwrap();
 
     let (seconds, fractional) = duration_to_parts(duration - DATACAKE_EPOCH);
     parts_as_duration(seconds, fractional)
+}
+
+#[cfg(datacake_verif)]
+/// Verification hook (only with `--cfg datacake_verif`): an injectable wall clock
+/// so that stalled, backwards and far-ahead readings can be supplied.
+pub mod verif_clock {
+    use std::cell::Cell;
+    use std::time::Duration;
+
+    thread_local! {
+        static WALL: Cell<Option<Duration>> = const { Cell::new(None) };
+    }
+
+    /// Makes `get_datacake_timestamp` return `reading` on this thread (`None` = real clock).
+    pub fn set(reading: Option<Duration>) {
+        WALL.with(|w| w.set(reading));
+    }
+
+    /// The injected reading, if any.
+    pub fn get() -> Option<Duration> {
+        WALL.with(|w| w.get())
+    }
 }
 
 #[cfg(test)]
